@@ -43,6 +43,17 @@ CLAIMED = {
              "outside the model; the scenario driver.",
         technique="Coq proof (inductive invariant over all schedules) on a hand LTS model + schedule enumeration on the implementation",
         design="6/C13"),
+    "C08": dict(
+        text="Coq theorems (axiom-free): for LSN, USN, CDN, LDN, UDN and CDN/start_at_upper_outer and EVERY vector of per-region sizes, the y-adjacency "
+             "induced by the connection tables and block layout equals BOUT++'s documented reading of the integers computed by writeGridfile's ladder; "
+             "index ordering for double nulls; tiling (every index in exactly one block, any sizes); symmetric injective tables. The ladder and the tables are "
+             "REGENERATED from mesh.py/tokamak.py each run and validated against the executed source; real equilibria + BoutMesh index code (makeRegions stubbed) "
+             "and corpus grid files (corner coordinates, theta, chi, y-coord) are checked with the same oracle. Known findings: single-null index ordering (F3), "
+             "start_at_upper_outer with disconnected double null (F14).",
+        note="Trusted: Coq kernel; TopoLib.bout_up/ordered = hand-written reading of BOUT++'s manual (the spec); ast translator (validated); circular/TORPEX topologies "
+             "covered by the grid-file oracle only (no table theorem); shared x-edge coincidence is C04's tolerance statement.",
+        technique="Coq proof (case analysis + lia over all size vectors) on a translated model + translation validation + grid-file oracle",
+        design="6/C08"),
 }
 
 PENDING = ["C01", "C03", "C04", "C05", "C06", "C07", "C08", "C09", "C10", "C11", "C12", "C13", "C14", "C15", "C16", "C17", "C18", "C19", "C20"]
